@@ -15,10 +15,10 @@ def conds(tier):
                                budget=300 if q else 900, slim=q))
     # fault position inside nested structures (3 slots), guard at the yielding task
     out.append(core.shape_cond("shapefault", P, [3, 5, 15] if q else [3, 5, 13, 15, 17, 19],
-                               13 if q else fam.FAULT_MENU, 3, gmodes=3, budget=300 if q else 1800, slim=q, pin=3))
+                               13, 3, gmodes=3, budget=300 if q else 1800, slim=q, pin=3))
     out.append(Cond("treeflush", core.mk_tree(P, 3, 2, 2), core.tree_params(3, 2, 2), builds=("C", "P"), pin=3, budget=120,
                     family="F-TREE(3,2,2)", encodes=core.ENC_SCHED))
     out.append(core.cancel_cond("cancel", P))
     if not q:
-        out.append(core.fault_cond("fault3", P, [5], g0modes=3, g1modes=5, pin=5, budget=1800))
+        out.append(core.fault_cond("fault3", P, [5], g0modes=3, g1modes=5, pin=5, budget=1800, slim=True))
     return out
